@@ -15,6 +15,15 @@ import (
 func (st *State) execSimple(fr *Frame, in ssa.Instruction) bool {
 	switch x := in.(type) {
 	case *ssa.DebugRef:
+		// remember the value of source-level variables so that loop invariants can name locals
+		if obj, ok := x.Object().(*types.Var); ok && !obj.IsField() {
+			if v, ok2 := fr.vals[x.X]; ok2 {
+				if fr.dbg == nil {
+					fr.dbg = map[string]dbgVar{}
+				}
+				fr.dbg[obj.Name()] = dbgVar{v, x.X.Type(), x.IsAddr}
+			}
+		}
 		return false
 	case *ssa.Alloc:
 		t := x.Type().Underlying().(*types.Pointer).Elem()
@@ -31,6 +40,11 @@ func (st *State) execSimple(fr *Frame, in ssa.Instruction) bool {
 	case *ssa.FieldAddr:
 		pt := x.X.Type().Underlying().(*types.Pointer).Elem()
 		pv := st.val(fr, x.X)
+		if h, ok := pv.(*EntH); ok {
+			// a field of an ent builder object (e.g. the query embedded in a Select builder): same handle
+			fr.vals[x] = h
+			break
+		}
 		if t, ok := pv.(*Term); ok {
 			st.panicAt(fr, x, "nil-deref", Neq(t, IntLit(0)))
 		}
@@ -199,6 +213,10 @@ func (st *State) execUnOp(fr *Frame, x *ssa.UnOp) bool {
 	v := st.val(fr, x.X)
 	switch x.Op {
 	case token.MUL: // load
+		if h, ok := v.(*EntH); ok {
+			fr.vals[x] = h
+			return false
+		}
 		pt := x.X.Type().Underlying().(*types.Pointer).Elem()
 		if t, ok := v.(*Term); ok {
 			st.panicAt(fr, x, "nil-deref", Neq(t, IntLit(0)))
